@@ -57,6 +57,9 @@ def scope_programs(draw, tier, fail=2, volatile=2, until=3, late_spawn=2, priv=1
                 out.append({'op': 'instant'})
             elif r < 14 and depth < maxdepth:
                 out.append(block(depth + 1, scope_chain))
+            elif r < 15 and scope_chain and toplevel and draw(st.integers(0, 3)) == 0:
+                # a child that was handed its scope tries to enter it a second time: refused, nothing else changes
+                out.append({'op': 'reenter', 'ref': draw(st.sampled_from(scope_chain))})
             elif r < 15 and scope_chain and w(late_spawn * 3):
                 ref = draw(st.sampled_from(scope_chain))
                 cn = nm.act()
